@@ -64,6 +64,7 @@ class PathCtx:
         self.stringified = False
         self.concretize_limit = concretize_limit
         self.notes = []
+        self._bitcache = None
 
     # -- solver -------------------------------------------------------------
     def _check(self, *extra):
